@@ -41,4 +41,46 @@ def wire (v : Ver) (maxQueue : Nat) : Wiring :=
     acceptHeaders := !(v.major == 2 && v.minor == 0),
     reason := v.ge 2 3 }
 
+/-! ### Histories of connections on one `falcon.asgi.App` object
+
+    `App.__init__` creates `self.ws_options = WebSocketOptions()` (`max_receive_queue = 4`); the attribute is public and writable at any time (falcon's own
+    ASGI test application changes it on a running server).  Every pass through `App._handle_websocket` constructs
+    ```
+    WebSocket(ver, scope, receive, send, self.ws_options.media_handlers, self.ws_options.max_receive_queue, self.ws_options.default_close_reasons)
+    ```
+    reading the options object afresh: nothing of an earlier connection survives in the `App`.  A connection to an unknown route constructs its
+    `WebSocket` the same way (it is refused afterwards), so it is a `connect` as well. -/
+
+/-- the part of `App.ws_options` the receive path depends on -/
+structure Opts where
+  maxQueue : Nat := 4            -- `WebSocketOptions.__init__`
+deriving Repr, DecidableEq
+
+inductive AppOp where
+  | setQueue (q : Nat)           -- `app.ws_options.max_receive_queue = q`
+  | connect (v : Ver)            -- one connection served by `App._handle_websocket` under the announced spec version `v`
+deriving Repr, DecidableEq
+
+/-- one operation on the App object: the options afterwards and, for a connection, how its WebSocket is wired -/
+def appStep (o : Opts) : AppOp → Opts × Option Wiring
+  | .setQueue q => ({ o with maxQueue := q }, none)
+  | .connect v => (o, some (wire v o.maxQueue))
+
+/-- the options in force after a history -/
+def inForce : Opts → List AppOp → Opts
+  | o, [] => o
+  | o, op :: r => inForce (appStep o op).1 r
+
+/-- the wirings of the connections of a history, in order -/
+def serve : Opts → List AppOp → List Wiring
+  | _, [] => []
+  | o, op :: r =>
+    match (appStep o op).2 with
+    | some w => w :: serve (appStep o op).1 r
+    | none => serve (appStep o op).1 r
+
+def AppOp.isConnect : AppOp → Bool
+  | .connect _ => true
+  | _ => false
+
 end Wm
